@@ -868,3 +868,112 @@ func runSurveyRegistryOwner(c *Ctx) {
 	}
 	c.Anchor("C41.R5", "deletes of Node.surveyRegistry entries", n >= 1)
 }
+
+func init() {
+	if round2Docs["C42"] == nil {
+		round2Docs["C42"] = map[string]string{}
+	}
+	round2Docs["C42"]["C42.R4"] = "K2: the loop that clears a pooled item buffer clears every slot (no exit or skip that depends on the contents)"
+	round3Hooks["C42"] = append(round3Hooks["C42"], runClearsEverySlot)
+}
+
+// readsElement: the condition is computed from a load through an element address (x[i] or x[i].f).
+func readsElement(v ssa.Value, depth int, seen map[ssa.Value]bool) bool {
+	if v == nil || seen[v] || depth > 6 {
+		return false
+	}
+	seen[v] = true
+	switch x := v.(type) {
+	case *ssa.UnOp:
+		if x.Op == token.MUL {
+			a := x.X
+			for i := 0; i < 4; i++ {
+				switch y := a.(type) {
+				case *ssa.FieldAddr:
+					a = y.X
+					continue
+				case *ssa.IndexAddr:
+					return true
+				}
+				break
+			}
+			return false
+		}
+		return readsElement(x.X, depth+1, seen)
+	case *ssa.BinOp:
+		return readsElement(x.X, depth+1, seen) || readsElement(x.Y, depth+1, seen)
+	case *ssa.Phi:
+		for _, e := range x.Edges {
+			if readsElement(e, depth+1, seen) {
+				return true
+			}
+		}
+	case *ssa.Call:
+		if b, ok := x.Call.Value.(*ssa.Builtin); ok && (b.Name() == "len" || b.Name() == "cap") {
+			return readsElement(x.Call.Args[0], depth+1, seen)
+		}
+	}
+	return false
+}
+
+// runClearsEverySlot (C42.R4): putItemBuf zeroes the item buffer before it goes back to the pool; the
+// items carry channel, key and payload of another connection. The clearing loop must reach every slot: a
+// store into an element of the buffer, in the function that pools it, is not conditional on the contents
+// of the buffer (an early exit "at the first empty slot" leaves everything behind it, because an item
+// with nil Data can sit in the middle of a frame).
+func runClearsEverySlot(c *Ctx) {
+	w := c.W
+	put := w.Func("centrifuge", "putItemBuf")
+	if !c.Anchor("C42.R4", "putItemBuf", put) {
+		return
+	}
+	n := 0
+	EachInstr(put, func(in ssa.Instruction) {
+		st, ok := in.(*ssa.Store)
+		if !ok {
+			return
+		}
+		if _, ok := st.Addr.(*ssa.IndexAddr); !ok {
+			return
+		}
+		n++
+		bad := ""
+		for _, g := range Guards(st) {
+			if readsElement(g.Cond, 0, map[ssa.Value]bool{}) {
+				bad = g.String()
+			}
+		}
+		c.Check("C42.R4", st, "clearing a pooled item buffer does not depend on its contents", bad == "",
+			"slots behind the first one that satisfies the condition keep another connection's items (channel, key, payload) and are handed out with the next buffer of that size class (condition: "+bad+")")
+	})
+	c.Anchor("C42.R4", "element stores in putItemBuf", n >= 1)
+}
+
+// mustPassUp: like PathQ.From, but a path that leaves a helper through a return continues at the helper's
+// call sites (same package, bounded depth): an obligation "before the request ends" may be discharged by
+// the caller of an extracted helper. Returns the offending instruction or nil.
+func (w *World) mustPassUp(from ssa.Instruction, q PathQ, depth int) ssa.Instruction {
+	bad := q.From(from)
+	if bad == nil {
+		return nil
+	}
+	if _, isRet := bad.(*ssa.Return); !isRet || depth <= 0 {
+		return bad
+	}
+	f := bad.Parent()
+	sites := 0
+	for _, site := range w.Callers(f) {
+		p := site.Parent()
+		if p == nil || p.Pkg != f.Pkg || strings.HasSuffix(w.Pos(p.Pos()), "_test.go") {
+			continue
+		}
+		sites++
+		if b := w.mustPassUp(site, q, depth-1); b != nil {
+			return b
+		}
+	}
+	if sites == 0 {
+		return bad
+	}
+	return nil
+}
